@@ -404,13 +404,13 @@ def load_known():
     return json.load(open(p)).get("findings", [])
 
 
-def region_holds(entry, inp):
+def region_holds(entry, inp, what=""):
     import regions
     fn = regions.REGIONS.get(entry["region"])
     if fn is None:
         return False
     try:
-        return bool(fn(inp))
+        return bool(fn(inp, what))
     except Exception:  # noqa: BLE001
         return False
 
@@ -512,7 +512,7 @@ def run_property(modname, tier, seed):
     for f in failures:
         hit = False
         for k in known:
-            if k.get("status") == "known" and k["site"] == f["site"] and region_holds(k, f["input"]):
+            if k.get("status") == "known" and k["site"] == f["site"] and region_holds(k, f["input"], f["what"]):
                 hit = True
                 break
         if hit:
